@@ -20,6 +20,7 @@ import c01core
 import c01sweeps
 import c01pattern
 import c01date
+import c01forof
 from common import log
 
 PID = "C01"
@@ -213,9 +214,10 @@ def run(chk, rebaseline=False):
     ]
     chk.prove(["theories/Lang/Properties.vo", "theories/Lang/OpsExec.vo", "theories/Lang/CoreProperties.vo", "theories/Lang/PrattProperties.vo",
                "theories/Lang/CoreExec.vo", "theories/Lang/ArrayPatternProperties.vo", "theories/Lang/ArrayPatternExec.vo",
-               "theories/Lang/CivilProperties.vo", "theories/Lang/CivilExec.vo"],
+               "theories/Lang/CivilProperties.vo", "theories/Lang/CivilExec.vo", "theories/Lang/ForOfProperties.vo", "theories/Lang/ForOfExec.vo"],
               ["theories/Lang/Properties.v", "theories/Lang/CoreProperties.v", "theories/Lang/PrattProperties.v",
-               "theories/Lang/ArrayPatternProperties.v", "theories/Lang/CivilProperties.v"], facts=["C01"])
+               "theories/Lang/ArrayPatternProperties.v", "theories/Lang/CivilProperties.v",
+               "theories/Lang/ForOfProperties.v"], facts=["C01"])
     ok, out, chk.th = common.build_harness("debug")
     if not ok:
         chk.proof_breaks.append("harness does not build against /repo: " + out[-800:])
@@ -243,6 +245,13 @@ def run(chk, rebaseline=False):
         return chk.finish()
     if not chk.replay:
         c01date.run(chk, chk.th, stats)
+
+    # ---- stream M6: for-of with a binding per iteration: emitted instructions and outcome vs Lang/ForOf*.v vs node ----
+    if chk.replay and "break_on" in json.load(open(chk.replay)):
+        c01forof.run(chk, chk.th, stats)
+        return chk.finish()
+    if not chk.replay:
+        c01forof.run(chk, chk.th, stats)
 
     # ---- stream A: operators on primitives: tsrun vs model vs node -----------------
     prims = probes.PRIMS
@@ -430,7 +439,7 @@ def run(chk, rebaseline=False):
         "known_probe_deviations": stats["known_probe_deviations"], "known_program_deviations": stats["known_program_deviations"],
         "generator_features": feats, "disagreements": stats["disagreements"],
         "sweeps": len(c01sweeps.S), "sweep_items": stats.get("sweep_items", 0),
-        "date_cases": stats.get("date_cases", 0),
+        "date_cases": stats.get("date_cases", 0), "for_of_cases": stats.get("forof_cases", 0),
         "array_pattern_cases": stats.get("pattern_cases", 0), "array_pattern_instructions_compared": stats.get("pattern_instructions", 0),
         "core_programs": stats.get("core_programs", 0), "core_instructions_compared": stats.get("core_instructions", 0),
         "core_value_outcomes": stats.get("core_value", 0), "core_error_outcomes": stats.get("core_error", 0),
